@@ -17,6 +17,30 @@ CHECKS['C04'] = dict(
    note='Trusted: Coq kernel; the hand model coq/model/RingBuffer.v (its agreement with the code is checked by execution only); a chunked copy is modelled by the number of cells it touches plus a bulk non-overlapping copy; allocation always succeeds; usize is unbounded nat. Real pointer provenance/aliasing and the allocator are outside the model (partial on that side).',
    design='8 C04')
 
+MODEL_NOTE = 'Trusted: Coq kernel; the hand model of the decoder (coq/model/{BitIO,FseDec,HufDec,BlockDec,FrameDec,Headers}.v: bit readers at list-of-bits level, FSE/Huffman table builders, literals/sequences/execution, frame state machine and all entry points; the ring buffer is abstracted to a byte queue as licensed by C04), whose agreement with the code is checked by running the EXTRACTED model (ExtrOcamlBasic only) against the implementation on every run; generated arithmetic kernels (rs2v.py); the harness and its driver-program interpreters (mirrored in ocaml/driver.ml); libzstd as producer of valid frames; an independent XXH64 in Python. Allocation failure, real memory and I/O errors of the source are outside the model.'
+
+CHECKS['C05'] = dict(
+   technique='Coq proof of growth invariants through the decoder model (block -> block loop -> decode_blocks), correspondence of the extracted model with the implementation on hostile and ordinary frames',
+   text='Axiom-free theorems (coq/props/C05.v) over the decoder model: for every input one block of any type appends at most 128 KiB or is rejected (literals announcing more, or sequences whose running output passes 128 KiB, are refused before copying -- the repaired finding F1); decode_blocks with a byte/block budget leaves at most what was held + budget + one block; reads while the frame is unfinished retain only the window; every accepted frame has a window within the configured limit (with C11). Each run decodes hostile frames (2^20-1 literal announcements, sequence blocks past 128 KiB) and ordinary multi-block frames stepwise through implementation and extracted model and checks the bound on the implementation\'s collectable amount.',
+   note=MODEL_NOTE + ' Peak heap of the real allocator (ring growth policy, Vec capacities) is not measured: the bound is on buffered bytes.',
+   design='8 C05')
+CHECKS['C06'] = dict(
+   technique='Coq proof (any sink state machine, any seam position, any sequence of drain calls) on the decoder model; random driver programs through implementation and extracted model; oracle = frame content',
+   text='Axiom-free theorems (coq/props/C06.v): every drain path (collect, read, collect_to_writer with ANY sink behaviour and any position of the ring seam, and any interleaving of them) hands out a prefix of the buffered bytes exactly once and in order, feeds exactly those bytes to the hasher, changes nothing else, and keeps the window while the frame is unfinished; decoding only appends and counts exactly the source bytes it takes. Not yet a theorem: that block decoding is insensitive to having drained bytes older than the window (partial). Every run executes random driver programs over the public API (all strategies and budgets, partial/failing sinks with retry, slice-to-slice chunkings including the checksum arriving alone, streaming reads, fragmenting sources) on frames several windows long, through implementation and extracted model token by token, with the oracle that every program delivers exactly the content, consumes exactly the frame and reports the right checksums.',
+   note=MODEL_NOTE, design='8 C06')
+CHECKS['C08'] = dict(
+   technique='Coq proof that the hasher receives exactly the delivered bytes (model records the hashed byte sequence); correspondence through an independent XXH64; compressor trailer checked over reuse histories',
+   text='Axiom-free theorems (coq/props/C08.v): after initialisation nothing is hashed; decoding never feeds the hasher; any mix of drain calls with any sinks feeds it exactly the bytes handed out, in order. XXH64 itself is outside Coq: each run recomputes the checksum of the model\'s hashed bytes with an independent XXH64 and compares it with the implementation\'s calculated and stored checksums under drain-heavy programs on wrapped buffers, and checks the compressor\'s trailer for reused compressors and fragmented readers.',
+   note=MODEL_NOTE + ' The streaming law of twox-hash (finish depends only on the concatenation of writes) is assumed and exercised, not proved.', design='8 C08')
+CHECKS['C11'] = dict(
+   technique='Coq proof over translator-generated window arithmetic/limit/clamp plus the reset model; exhaustive descriptor x limit x entry-path correspondence',
+   text='Axiom-free theorems (coq/props/C11.v): a frame whose window exceeds min(limit, format maximum) is refused at initialisation with WindowSizeTooBig, one at or below is accepted, illegal windows are refused, the verdict is the same on first use and on reuse, the setter clamps, the default is 128 MiB, every descriptor byte means the RFC formula, and the reservation of the window never precedes the check (event order of the model). window_size, check_window_size and set_max_window_size are regenerated from the source each run. Each run tries window descriptors and single-segment sizes against limits at w-1, w, w+1, default, format maximum+-1 and u64::MAX through FrameDecoder (fresh, reused, after a failed frame), decode_all and StreamingDecoder, on implementation and model, against an independent oracle.',
+   note=MODEL_NOTE + ' The "no allocation before the check" half is the statement order of the model, tied to the code by correspondence of outcomes only (an allocation hook is not installed).', design='8 C11')
+CHECKS['C01'] = dict(
+   technique='Correspondence of the extracted Coq decoder model with the implementation on valid frames from three producers, oracle = original data; component theorems from C04/C05/C12/C14',
+   text='The whole decoder is an executable Coq model that is extracted and run against the implementation on every run over frames from libzstd (levels -5..22, window logs, flags, long-distance mode, flush patterns), from this crate\'s compressor and from a spec-directed builder (RLE/repeat tables, offset code 3 with zero literals, multi-byte sequence counts), with the original data, declared size and XXH64 as oracle. Theorems currently closed for this property are component-level (frame/block header meaning and code tables from C14, buffer refinement from C04, block invariants from C05); the end-to-end refinement decode = specification is NOT yet proved (partial).',
+   note=MODEL_NOTE, category='translation_validation', design='8 C01')
+
 NOT_YET = {}
 
 def main():
